@@ -20,7 +20,8 @@ ASSUMPTIONS = ["theorems cover cabd_read_headers and cabd_sys_read_block; the li
                "model validated against the C by differential execution"]
 RULE = ("cab.params: small generated cabinets (stored/MSZIP, 1-3 blocks, 1-4 members, optional reserves) and the shipped fixtures, each run under "
         "SALVAGE x FIXMSZIP in {0,1}^2; cab.badindex: one or more file entries given a folder index >= number of folders; cab.badcksum: stored checksum of one block "
-        "replaced by a wrong non-zero value (data intact); non-trivial = at least one member extracted; distinct by file hash x parameter combination")
+        "replaced by a wrong non-zero value (data intact); cab.search-params: valid cabinets, most carrying a nested uncompressed cabinet inside a data block, with junk or another cabinet around them, "
+        "listed by search() under the four combinations; non-trivial = at least one member extracted; distinct by file hash x parameter combination")
 
 COMBOS = [(0, 0), (0, 1), (1, 0), (1, 1)]
 
@@ -72,6 +73,24 @@ def generate(ctx):
         for (s, f) in COMBOS:
             yield case_lines(cab, len(members), s, f), dict(family="cab.badcksum", salvage=s, fix=f, expect=[digest(m[1]) for m in members],
                                                             names=[m[0].hex() for m in members], comp=comp, sig=f"{hash(cab)}-{s}{f}")
+    # search(): valid cabinets (some carrying a nested cabinet, uncompressed, inside a data block; some preceded /
+    # followed by junk or by a second cabinet) listed under all four combinations in one case
+    for k in range(8 if ctx.tier == "quick" else 120):
+        inner, _, _ = build_cab(rng)
+        nested = rng.random() < 0.7
+        other = bytes(rng.choice(b"xyz ") for _ in range(rng.choice([5, 500, 5000])))
+        whole = (inner if nested else b"") + other
+        blocks = []; pos = 0
+        while pos < len(whole):
+            n = min(len(whole) - pos, rng.choice([32768, 32768, 1000])); blocks.append((whole[pos:pos + n], n)); pos += n
+        files = ([dict(name=b"inner.cab", length=len(inner), offset=0, folder=0)] if nested else []) + \
+                [dict(name=b"other.txt", length=len(other), offset=len(inner) if nested else 0, folder=0)]
+        outer, _ = minicab.build([(0, blocks)], files)
+        blob = rng.choice([b"", b"MZ" + bytes(50)]) + outer + rng.choice([b"", b"junk" * 3, build_cab(rng)[0]])
+        lines = [f"file b.bin {blob.hex()}"]
+        for j, (sv, fx) in enumerate(COMBOS):
+            lines += ["new cab", f"param i{j} SALVAGE {sv}", f"param i{j} FIXMSZIP {fx}", f"param i{j} SEARCHBUF {rng.choice([64, 32768])}", f"search i{j} b.bin"]
+        yield lines, dict(family="cab.search-params", salvage=None, fix=None, nested=nested, sig=f"search-{hash(blob)}")
     # shipped fixtures: strict-valid ones must be unchanged by the flags (judged against the strict run of the same file)
     fx = sorted(glob.glob(os.path.join(C.REPO, "cabextract/test/cabs/*.cab")))
     for p in fx[: (6 if ctx.tier == "quick" else len(fx))]:
@@ -129,6 +148,16 @@ def judge(ctx, meta, impl, model):
         for k, e in enumerate(ex[:len(meta["expect"])]):
             if s == 1 and (e.get("st") != "0" or e.get("out") != meta["expect"][k]):
                 fs.append(Finding("violation", f"salvage mode, wrong stored checksum over intact data, member {k}: st={e.get('st')} out={e.get('out')} expected original {meta['expect'][k]}"))
+    elif fam == "cab.search-params":
+        import re
+        def norm(b):       # handle numbers differ between the instances of one case
+            return [re.sub(r"\bh\d+(\.\.h\d+)?", "h", l.split(" edges=")[0]) for l in b]
+        sr = [norm(b) for b in impl if b[0].startswith("search")]
+        if sr and " st=0" in sr[0][0]:
+            for j, r in enumerate(sr[1:], 1):
+                if r != sr[0]:
+                    d = next((f"{x!r} vs strict {y!r}" for x, y in zip(r + ["<none>"] * len(sr[0]), sr[0] + ["<none>"] * len(r)) if x != y), "?")
+                    fs.append(Finding("violation", f"search() of a valid cabinet lists differently under SALVAGE={COMBOS[j][0]} FIXMSZIP={COMBOS[j][1]} than in strict mode: {d}"))
     elif fam == "cab.fixture":
         key = meta["fixture"]
         proj = (head.get("st") if head else None, names, [(e.get("st"), e.get("out")) for e in ex])
@@ -142,6 +171,13 @@ def judge(ctx, meta, impl, model):
                 for k, (a, b) in enumerate(zip(st[2], proj[2])):
                     if a[0] == "0" and a != b:
                         fs.append(Finding("violation", f"fixture {key} member {k}: strict {a}, SALVAGE={s} FIXMSZIP={f} gives {b}"))
+    if model is not None and fam == "cab.search-params":
+        if any(b[0].endswith("unsupported") for b in model): return fs
+        pi = [[l.split(" edges=")[0] for l in b] for b in impl if b[0].startswith("search")]
+        pm = [b for b in model if b[0].startswith("search")]
+        if pi != pm:
+            fs.append(Finding("mismatch", f"search results differ: impl={str(pi)[:200]} model={str(pm)[:200]}"))
+        return fs
     if model is not None:
         mh, mfiles = listing(model)
         mex = extracts(model)
